@@ -12,6 +12,9 @@ import c01
 QMAX = {"qint8": 127, "e4m3": 448, "e5m2": 57344}
 
 
+SPEC3 = []
+
+
 def weight8_case(ctx, F, Q, axis, x, names, lines, expect, meta, spec_lines, spec_meta):
     import optimum.quanto as q
     qt = q.qtypes[c01.QT[Q]]
@@ -39,6 +42,10 @@ def weight8_case(ctx, F, Q, axis, x, names, lines, expect, meta, spec_lines, spe
     spec_meta.append(("w8", F, Q, axis, x, names))
     if not torch.isfinite(d.float()).all():
         ctx.count("weight8:nonfinite-deq")
+    # with the default optimizer nothing saturates: the C01 bound is then half a step for every element (`spec03`: the scale
+    # keeps every element of its slice inside the grid, up to rounding)
+    SPEC3.append((f"spec03 {F} {c01.QMAX[Q] if hasattr(c01, 'QMAX') else {'qint8': 127, 'e4m3': 448, 'e5m2': 57344}[Q]} {eff_axis} {shape_s(x.shape)} {xb} {shape_s(qb._scale.shape)} {list_s(sb)}",
+                  (F, Q, axis, x, names)))
 
 
 def calibration_cases(ctx):
@@ -202,6 +209,12 @@ def run(ctx):
         for v in verdicts:
             sig = f"C16:sym-{v}:{'float8' if Q != 'qint8' else 'int8'}"
             ctx.spec_failures.append((sig, {"F": F, "Q": Q, "axis": axis, "shape": list(x.shape), "classes": names, "verdict": o[:200], "replay": l[:2000]}))
+    s3 = run_driver([l for l, _ in SPEC3])
+    for (l, (F, Q, axis, x, names)), o in zip(SPEC3, s3):
+        if o != "ok" and len(o.split()) > 1 and o.split()[1] == "saturates":
+            ctx.spec_failures.append((f"C16:sym-saturates-with-the-default-scale:{'float8' if Q != 'qint8' else 'int8'}",
+                                      {"F": F, "Q": Q, "axis": axis, "shape": list(x.shape), "classes": names, "verdict": o[:200], "replay": l[:2000]}))
+    del SPEC3[:]
     calibration_cases(ctx)
     zero_layer_cases(ctx)
     # S4: witnesses of the listed findings, and of the repaired defects (which must now pass)
